@@ -40,7 +40,7 @@ CURATED = LONG_BLANKS + ['', ' ', '  ', 'a b', "it's", '"q"', '$(HOME)', '${HOME
 CONTEXTS = ['cmd_arg', 'cmd_env', 'cmd_str_envref', 'step_str_envref', 'cmd_word', 'cmds_multi', 'step_arg', 'step_jbos',
             'test_arg', 'test_env', 'driver_arg', 'driver_child', 'driver_child_wrap',
             'driver_nested', 'compile_opt', 'compile_opt_str', 'define_value',
-            'link_opt', 'link_opt_str', 'include_path', 'desc_step', 'symlink_src', 'symlink_gen',
+            'link_opt', 'lib_opt', 'link_opt_str', 'include_path', 'desc_step', 'symlink_src', 'symlink_gen',
             'copy_src_desc']
 SCRIPT_CONTEXTS = ['global_opt', 'global_opt_str', 'global_link_opt', 'env_cflags',
                    'env_cppflags', 'env_ldflags', 'env_ldlibs']
@@ -78,6 +78,8 @@ def admissible(ctx, s):
         if s in ('', '.', '..') or '/' in s or '\\' in s or s.startswith('~') or \
            re.match(r'^.:', s) or len(s.encode('utf-8')) > 200 or s != s.strip('/'):
             return False
+    if ctx == 'lib_opt' and s == '':
+        return False
     if ctx in ('compile_opt_str', 'link_opt_str', 'lib_opt_str', 'global_opt_str',
                'env_cflags', 'env_cppflags', 'env_ldflags', 'env_ldlibs'):
         # rendered by the generator as an sh-quoted string; the empty string
@@ -312,6 +314,15 @@ def render_script(slots, script_slots=()):
             defaults.append('t%d' % i)
             have_default = True
             exp[i] = {'kind': 'link', 'opts': [s], 'out': 'ex%d' % i}
+        elif ctx == 'lib_opt':
+            # a library NAME (opts.lib): reaches the linker as -l<name> among the libraries,
+            # i.e. through the rule's library variable, not through its option variable
+            need_src = True
+            L.append("t%d = executable('ex%d', files=[shared_obj], link_options=[opts.lib(%s)])"
+                     % (i, i, _r(s)))
+            defaults.append('t%d' % i)
+            have_default = True
+            exp[i] = {'kind': 'link', 'opts': ['-l' + s], 'out': 'ex%d' % i}
         elif ctx == 'link_opt_str':
             need_src = True
             lst = [s, 'v' + s]
